@@ -21,6 +21,7 @@ import (
 
 	"github.com/failsafe-go/failsafe-go"
 	"github.com/failsafe-go/failsafe-go/bulkhead"
+	"github.com/failsafe-go/failsafe-go/circuitbreaker"
 	"github.com/failsafe-go/failsafe-go/failsafegrpc"
 	"github.com/failsafe-go/failsafe-go/failsafehttp"
 	"github.com/failsafe-go/failsafe-go/fallback"
@@ -272,7 +273,7 @@ func (c *lifecycleCtx) Value(any) any { return nil }
 // executor context is only combined with stacks that derive no such child context.
 func d12Trigger(stack []string) bool {
 	for _, k := range stack {
-		if k == "timeout" || k == "hedge-real" || k == "hedge-1h" {
+		if k == "timeout" || k == "hedge-real" || k == "hedge-custom" || k == "hedge-1h" {
 			return true
 		}
 	}
@@ -292,6 +293,27 @@ type httpScenario struct {
 	Via      string   `json:"via"`
 	Reps     int      `json:"reps"`
 	BodySize int      `json:"body_size"`
+	// BodyKind: "" bytes.Reader | "seek-fails": an io.ReadSeeker whose Seek fails from the second attempt on (the attempt
+	// then ends before anything is sent)
+	BodyKind string `json:"body_kind,omitempty"`
+	// Barrier: the server answers only once this many requests are in flight (or 2 ms have passed), so that hedged
+	// attempts obtain their responses at the same moment
+	Barrier int `json:"barrier,omitempty"`
+}
+
+// flakySeeker is a request body that can be read once; rewinding it fails.
+type flakySeeker struct {
+	r     *bytes.Reader
+	seeks int
+}
+
+func (f *flakySeeker) Read(p []byte) (int, error) { return f.r.Read(p) }
+func (f *flakySeeker) Seek(off int64, whence int) (int64, error) {
+	f.seeks++
+	if f.seeks > 1 {
+		return 0, errors.New("the request body is gone")
+	}
+	return f.r.Seek(off, whence)
 }
 
 func runHTTP(sc httpScenario) (cleanup func()) {
@@ -305,6 +327,18 @@ func runHTTP(sc httpScenario) (cleanup func()) {
 		i := attempt
 		attempt++
 		mu.Unlock()
+		if sc.Barrier > 1 {
+			w := harness.Wait(2 * time.Millisecond)
+			for !w.Expired() {
+				mu.Lock()
+				n := attempt
+				mu.Unlock()
+				if n >= sc.Barrier {
+					break
+				}
+				time.Sleep(20 * time.Microsecond)
+			}
+		}
 		st := 200
 		if i%(len(sc.Statuses)+1) < len(sc.Statuses) {
 			st = sc.Statuses[i%(len(sc.Statuses)+1)]
@@ -327,6 +361,18 @@ func runHTTP(sc httpScenario) (cleanup func()) {
 				pols = append(pols, timeout.With[*http.Response](time.Hour))
 			case "hedge-real":
 				pols = append(pols, hedgepolicy.BuilderWithDelay[*http.Response](200*time.Microsecond).WithMaxHedges(2).Build())
+			case "hedge-custom":
+				// only a response below 500 ends the hedging early: during an outage every attempt returns and the last is used
+				pols = append(pols, hedgepolicy.BuilderWithDelay[*http.Response](200*time.Microsecond).WithMaxHedges(2).
+					CancelIf(func(r *http.Response, err error) bool { return r != nil && r.StatusCode < 500 }).Build())
+			case "breaker":
+				// opens on the first 5xx: the next attempt is rejected before anything is sent
+				pols = append(pols, circuitbreaker.Builder[*http.Response]().HandleIf(func(r *http.Response, err error) bool {
+					return err != nil || (r != nil && r.StatusCode >= 500)
+				}).WithFailureThreshold(1).WithDelay(time.Hour).Build())
+			case "limiter":
+				// one permit per hour: the second attempt is rejected before anything is sent
+				pols = append(pols, ratelimiter.BurstyBuilder[*http.Response](1, time.Hour).Build())
 			}
 		}
 		ex := failsafe.NewExecutor[*http.Response](pols...)
@@ -350,6 +396,9 @@ func runHTTP(sc httpScenario) (cleanup func()) {
 		var body io.Reader
 		if sc.BodySize > 0 {
 			body = bytes.NewReader(bytes.Repeat([]byte("b"), sc.BodySize))
+			if sc.BodyKind == "seek-fails" {
+				body = &flakySeeker{r: bytes.NewReader(bytes.Repeat([]byte("b"), sc.BodySize))}
+			}
 		}
 		req, _ := http.NewRequestWithContext(reqCtx, "POST", srv.URL, body)
 		var resp *http.Response
@@ -397,13 +446,25 @@ func genHTTP(t *rapid.T) httpScenario {
 		BodySize: rapid.SampledFrom([]int{0, 100, 20000}).Draw(t, "bodySize"),
 	}
 	for i, n := 0, rapid.IntRange(0, 3).Draw(t, "nPols"); i < n; i++ {
-		k := rapid.SampledFrom([]string{"retry", "retry", "timeout", "hedge-real"}).Draw(t, "pol")
-		if !contains(sc.Stack, k) {
+		k := rapid.SampledFrom([]string{"retry", "retry", "timeout", "hedge-real", "hedge-custom", "breaker", "limiter"}).Draw(t, "pol")
+		if !contains(sc.Stack, k) && !(strings.HasPrefix(k, "hedge") && (contains(sc.Stack, "hedge-real") || contains(sc.Stack, "hedge-custom"))) {
 			sc.Stack = append(sc.Stack, k)
 		}
 	}
-	for i, n := 0, rapid.IntRange(0, 4).Draw(t, "nStatuses"); i < n; i++ {
-		sc.Statuses = append(sc.Statuses, rapid.SampledFrom([]int{200, 404, 429, 500, 503}).Draw(t, "status"))
+	if rapid.IntRange(0, 2).Draw(t, "outage") == 0 {
+		// an outage: every attempt gets the same retryable answer
+		st := rapid.SampledFrom([]int{429, 500, 503}).Draw(t, "outageStatus")
+		sc.Statuses = []int{st, st, st, st, st, st, st, st, st, st, st, st}
+	} else {
+		for i, n := 0, rapid.IntRange(0, 4).Draw(t, "nStatuses"); i < n; i++ {
+			sc.Statuses = append(sc.Statuses, rapid.SampledFrom([]int{200, 404, 429, 500, 503}).Draw(t, "status"))
+		}
+	}
+	if sc.BodySize > 0 && rapid.IntRange(0, 3).Draw(t, "seekFails") == 0 {
+		sc.BodyKind = "seek-fails"
+	}
+	if contains(sc.Stack, "hedge-real") || contains(sc.Stack, "hedge-custom") {
+		sc.Barrier = rapid.SampledFrom([]int{0, 2, 3}).Draw(t, "barrier")
 	}
 	return sc
 }
